@@ -39,7 +39,7 @@ def class_indices(N, W, b, r, c):
     return idx
 
 
-def certificate(ctx, N, W, S, lam, rho0, rec, case, cb):
+def certificate(ctx, N, W, S, lam, rho0, rec, case, cb, abs_tol=1e-6, rel_tol=1e-6):
     """eps-KKT certificate from the exit state; sound for a correct solver (Proofs/AdmmP admm_loop_stop + z_update_toeplitz)"""
     from fast_ticc import matrix_compression as mc
     ex = rec["exit"]
@@ -67,9 +67,9 @@ def certificate(ctx, N, W, S, lam, rho0, rec, case, cb):
     if rec["stop"] is None:
         return ok
     # stopping rule honoured: both residuals within the solver's own tolerances
-    at = np.sqrt(len(x)) * 1e-6 + 1e-4
-    tp = at + 1e-6 * max(norm(x), norm(z))
-    td = at + 1e-6 * norm(rho * u)
+    at = np.sqrt(len(x)) * abs_tol + 1e-4
+    tp = at + rel_tol * max(norm(x), norm(z))
+    td = at + rel_tol * norm(rho * u)
     if norm(x - z) > tp * (1 + 1e-9) or norm(rho * (z - zo)) > td * (1 + 1e-9):
         bad("solver reports convergence but residuals exceed its tolerances (primal %.3g/%.3g dual %.3g/%.3g)" % (norm(x - z), tp, norm(rho * (z - zo)), td))
     # hence: returned theta is block-Toeplitz to within tol_p
@@ -213,6 +213,23 @@ def run(ctx):
                 hist["cov"][form] = hist["cov"].get(form, 0) + 1
                 hist["not_converged"] += rec["stop"] is None
                 certificate(ctx, N, W, Sv.astype(np.float64), lam, 1.0, rec, case, None)
+        # (c'') the caller's own stopping tolerances, unequal and loose enough to matter: a run that stops within its budget must
+        # meet THESE tolerances (absolute and relative are different knobs)
+        for ti, (N, W) in enumerate([(2, 2), (3, 2), (2, 3), (3, 4)] + ([(4, 3), (2, 6)] if ctx.thorough else [])):
+            n = N * W
+            for (a_tol, r_tol) in ((0.0, 1e-2), (0.0, 1e-3), (1e-2, 0.0), (1e-7, 3e-3)):
+                S = admm_tie.random_cov(rng, n, "full")
+                lam = [0.11, 0.3, 0.05][ti % 3]
+                case = {"N": N, "W": W, "cov": "full", "lam": lam, "lam_value": lam, "rho": 1.0, "callback": False,
+                        "absolute_tolerance": a_tol, "relative_tolerance": r_tol, "S_hex": [[float(v).hex() for v in row] for row in S]}
+                rec = None
+                with ctx.guard("admm_optimize_theta", case):
+                    rec = admm_tie.record_solver_run(N, W, S, lam, rho=1.0, abs_tol=a_tol, rel_tol=r_tol)
+                ctx.count("solver-run:tolerances")
+                if rec is None or rec["exit"] is None:
+                    continue
+                hist["not_converged"] += rec["stop"] is None
+                certificate(ctx, N, W, S, lam, 1.0, rec, case, None, abs_tol=a_tol, rel_tol=r_tol)
         # (d) unconditional clause: rho = 1, no callback, eig(S) in [0.25, 4], lambda in [0,1]
         worst = 0
         for i in range(ctx.budget(25, 150)):
